@@ -89,6 +89,30 @@ theorem weight_physical_table : ∀ u v : WeightUnit,
 theorem speed_assoc_consistent : ∀ u : SpeedUnit,
     siSpeed u = siDistance u.associatedDistanceUnit / siTime u.associatedTimeUnit := by decide +kernel
 
+
+/-- hand-written: metres in the distance unit an energy-rate unit is "per", and whether its energy is
+electric (kWh) or a liquid fuel — independent of the source's associated-unit maps -/
+def siRateDistance : EnergyRateUnit → ℚ
+  | .gallonsGasolinePerMile => 1609344 / 1000
+  | .gallonsDieselPerMile => 1609344 / 1000
+  | .kilowattHoursPerMile => 1609344 / 1000
+  | .kilowattHoursPerKilometer => 1000
+  | .kilowattHoursPerMeter => 1
+
+def rateEnergyUnit : EnergyRateUnit → EnergyUnit
+  | .gallonsGasolinePerMile => .gallonsGasoline
+  | .gallonsDieselPerMile => .gallonsDiesel
+  | .kilowattHoursPerMile => .kilowattHours
+  | .kilowattHoursPerKilometer => .kilowattHours
+  | .kilowattHoursPerMeter => .kilowattHours
+
+/-- the associated-unit maps of the source say what the unit names say: a rate "per mile" is
+multiplied by a distance in miles, "per kilometre" by kilometres, "per metre" by metres, and yields
+gallons of the named fuel or kilowatt-hours -/
+theorem rate_associated_units_correct : ∀ ru : EnergyRateUnit,
+    siDistance ru.associatedDistanceUnit = siRateDistance ru ∧
+    ru.associatedEnergyUnit = rateEnergyUnit ru := by decide +kernel
+
 /-! ### Lifting to every magnitude and sign, in any linearly ordered field -/
 
 section
